@@ -344,9 +344,10 @@ def answerCost (r : Req) (c : Cfg) : String :=
       | .ok () =>
         let pre : Option (Prefilter UInt8) := preC.map (·.findIn)
         let calls := CostP.ovlCallsCost k Q A g pre i (r.natD "n" 1) OState.start
-        fmtList (calls.map fun
-          | .error e => e.name
-          | .ok c => s!"{c.transitions}/{if isDfa then 0 else c.fails}")
+        let scans := ovlCallsScan A pre i (r.natD "n" 1) OState.start
+        fmtList ((calls.zip (scans ++ List.replicate calls.length 0)).map fun
+          | (.error e, _) => e.name
+          | (.ok c, p) => s!"{c.transitions}/{if isDfa then 0 else c.fails}/{p}")
     else
     -- the haystack extent the prefilter answers of this search account for (`findScan`)
     let scan : Nat := match gate with
